@@ -11,6 +11,7 @@ mod features;
 mod format;
 mod histsession;
 mod script;
+mod sweep;
 mod trace;
 
 fn main() {
@@ -42,6 +43,7 @@ fn main() {
         "docsync" => docsync::run(cases, max_fail, &opts),
         "diag" => diag::run(cases, max_fail, &opts),
         "format" => format::run(cases, max_fail, &opts),
+        "sweep" => sweep::run(cases, max_fail, &opts),
         "histsession" => histsession::run(cases, max_fail, &opts),
         "features" => features::run(cases, max_fail, &opts),
         "docsession" => docsession::run_sessions(cases, max_fail, &opts),
